@@ -177,8 +177,8 @@ DESC = {
 def main():
     only = sys.argv[1:]
     for pid in sorted(os.listdir(SEED)):
-        for v in "abcd":
-            out = os.path.join(SEED, pid, "out" if v in "ab" else "out2")
+        for v in "abcdef":
+            out = os.path.join(SEED, pid, "out" if v in "ab" else ("out2" if v in "cd" else "out3"))
             if not os.path.isdir(out):
                 continue
             key = f"{pid}-{v}"
@@ -205,7 +205,7 @@ def main():
             meta.update({
                 "id": key,
                 "property_broken": pid,
-                "origin": "written by an independent sub-agent that was given only the text of the property and a scratch worktree of /repo (nothing from /verif)" + ("" if v in "ab" else "; second round: additionally told what the first-round changes a and b were, and asked for different ones"),
+                "origin": "written by an independent sub-agent that was given only the text of the property and a scratch worktree of /repo (nothing from /verif)" + ("" if v in "ab" else ("; second round: additionally told what the first-round changes a and b were, and asked for different ones" if v in "cd" else "; third round: additionally told what the changes a-d were, and asked for different ones")),
                 "change": what,
                 "needs_to_manifest": needs,
                 "confirmed_by_me": {
